@@ -42,6 +42,11 @@ func parse(str string, l ZitiQlListener, el antlr.ErrorListener, debug bool) {
 	input := antlr.NewInputStream(str)
 	lexer.SetInputStream(input)
 
+	// what the lexer cannot tokenize must reach the caller as an error as well, instead of being
+	// printed to stderr by the default console listener and silently dropped from the query
+	lexer.RemoveErrorListeners()
+	lexer.AddErrorListener(el)
+
 	p := parserPool.Get().(*ZitiQlParser)
 	defer parserPool.Put(p)
 
@@ -95,9 +100,9 @@ type ErrorListener struct {
 }
 
 func (el *ErrorListener) SyntaxError(_ antlr.Recognizer, offendingSymbol interface{}, line, column int, _ string, _ antlr.RecognitionException) {
-	s, ok := offendingSymbol.(*antlr.CommonToken)
+	// lexer errors carry no offending token
 	symbol := "<unknown>"
-	if ok {
+	if s, ok := offendingSymbol.(*antlr.CommonToken); ok && s != nil {
 		symbol = s.GetText()
 	}
 
@@ -105,7 +110,7 @@ func (el *ErrorListener) SyntaxError(_ antlr.Recognizer, offendingSymbol interfa
 		Line:    line,
 		Column:  column,
 		Symbol:  symbol,
-		Message: fmt.Sprintf(`Unexpected symbol: "%s" at line: %d column: %d`, s.GetText(), line, column),
+		Message: fmt.Sprintf(`Unexpected symbol: "%s" at line: %d column: %d`, symbol, line, column),
 	})
 }
 
